@@ -225,3 +225,185 @@ PROPERTIES['C01'] = dict(
     not_proved=['the shunting-yard handlers (pop loop, argument counting) against their contracts for arbitrary stacks: pending loop-invariant support'],
     bounded_rule='(tree, spelling) cases; distinct = distinct spellings',
 )
+
+
+# ====================================================================================
+# proved part: the exported text of a node is the fully parenthesised rendering built from its operands' texts
+# (set_expr of every token kind, on the real bodies, operand texts arbitrary strings).  Together with the table fact that
+# AstBuilder.append hands set_expr exactly the popped operands in order, the exported text of a tree is render(tree)
+# by structural induction.
+from pyvc.contract import Contract, ObjT, RecordT, StrT, ConstT, OneOf, TupleT
+from pyvc.spec import in_re
+
+_OPS2 = ['+', '-', '*', '/', '^', '&', '=', '<>', '<', '>', '<=', '>=']
+
+
+def _tokT(cls, **attr):
+    return ObjT(cls, {'attr': RecordT(attr), 'source': ConstT('')})
+
+
+def _operandT():
+    return _tokT('formulas.tokens.operand:Operand', expr=StrT())
+
+
+def _set_expr_contract(name, n):
+    params = dict(self=_tokT('formulas.tokens.operator:OperatorToken', name=ConstT(name)), a=_operandT())
+    if n == 2:
+        params['b'] = _operandT()
+
+    def lemma1(self, a):
+        self.set_expr(a)
+        return self.attr['expr']
+
+    def lemma2(self, a, b):
+        self.set_expr(a, b)
+        return self.attr['expr']
+    fn = lemma2 if n == 2 else lemma1
+    c = Contract(lambda: fn, params, 'C01', name='Operator.set_expr[%s]' % {' ': 'space'}.get(name, name), use=[], frame=('self',))
+    CONTRACTS.append(c)
+    if n == 2:
+        @c.ensures('binary-node-renders-as-parenthesised-infix', 'P')
+        def _(self, a, b, result):
+            ea, eb = a.attr['expr'], b.attr['expr']
+            if name == ' ':
+                return result == '(' + ea + ' ' + eb + ')'
+            if name in (',', ':'):
+                return result == '(' + ea + name + ' ' + eb + ')'
+            return result == '(' + ea + ' ' + name + ' ' + eb + ')'
+
+        @c.canary('canary:no-parentheses')
+        def _(self, a, b, result):
+            return result == a.attr['expr'] + name + b.attr['expr']
+    else:
+        @c.ensures('unary-node-renders-as-sign-prefix-or-percent-suffix', 'P')
+        def _(self, a, result):
+            ea = a.attr['expr']
+            return result == ((ea + '%') if name == '%' else (name[1] + ea))
+
+        @c.canary('canary:operand-dropped')
+        def _(self, a, result):
+            return result == name
+    return c
+
+
+for _nm_ in _OPS2 + [' ', ',', ':']:
+    _set_expr_contract(_nm_, 2)
+for _nm_ in ('u-', 'u+', '%'):
+    _set_expr_contract(_nm_, 1)
+
+
+def _fn_set_expr_contract(n):
+    params = dict(self=_tokT('formulas.tokens.function:Function', name=StrT()))
+    names = ['a', 'b', 'c'][:n]
+    for k in names:
+        params[k] = _operandT()
+
+    def l0(self):
+        self.set_expr()
+        return self.attr['expr']
+
+    def l1(self, a):
+        self.set_expr(a)
+        return self.attr['expr']
+
+    def l2(self, a, b):
+        self.set_expr(a, b)
+        return self.attr['expr']
+
+    def l3(self, a, b, c):
+        self.set_expr(a, b, c)
+        return self.attr['expr']
+    fn = [l0, l1, l2, l3][n]
+    c = Contract(lambda: fn, params, 'C01', name='Function.set_expr[%d arguments]' % n, use=[], frame=('self',))
+    CONTRACTS.append(c)
+    if n == 0:
+        @c.ensures('call-renders-as-NAME-and-arguments-joined-by-comma-blank', 'P')
+        def _(self, result):
+            return result == self.attr['name'].upper() + '()'
+    elif n == 1:
+        @c.ensures('call-renders-as-NAME-and-arguments-joined-by-comma-blank', 'P')
+        def _(self, a, result):
+            return result == self.attr['name'].upper() + '(' + a.attr['expr'] + ')'
+    elif n == 2:
+        @c.ensures('call-renders-as-NAME-and-arguments-joined-by-comma-blank', 'P')
+        def _(self, a, b, result):
+            return result == self.attr['name'].upper() + '(' + a.attr['expr'] + ', ' + b.attr['expr'] + ')'
+    else:
+        @c.ensures('call-renders-as-NAME-and-arguments-joined-by-comma-blank', 'P')
+        def _(self, a, b, c, result):
+            return result == self.attr['name'].upper() + '(' + a.attr['expr'] + ', ' + b.attr['expr'] + ', ' + c.attr['expr'] + ')'
+    return c
+
+
+for _kk in range(4):
+    _fn_set_expr_contract(_kk)
+
+
+def lemma_string_expr(self):
+    self.set_expr()
+    return self.attr['expr']
+
+
+c_str_expr = Contract(lambda: lemma_string_expr, dict(self=_tokT('formulas.tokens.operand:String', name=StrT())), 'C01',
+                      name='String.set_expr', use=[], frame=('self',))
+CONTRACTS.append(c_str_expr)
+
+
+@c_str_expr.ensures('text-literal-renders-in-double-quotes-as-written', 'P')
+def _(self, result):
+    return result == '"' + self.attr['name'] + '"'
+
+
+def lemma_token_expr(self):
+    self.set_expr()
+    return self.attr['expr']
+
+
+c_tok_expr = Contract(lambda: lemma_token_expr, dict(self=_tokT('formulas.tokens.operand:Number', name=StrT())), 'C01',
+                      name='Token.set_expr[Number]', use=[], frame=('self',))
+CONTRACTS.append(c_tok_expr)
+
+
+@c_tok_expr.ensures('literal-renders-as-its-name', 'P')
+def _(self, result):
+    return result == self.attr['name']
+
+
+def _builder_table():
+    """Ground facts (kind S: they support the structural induction, a failure is reported as PROOF-BROKEN): the real
+    AstBuilder.append hands set_expr exactly the operands popped for the node, in source order, for operators and functions."""
+    from formulas.builder import AstBuilder
+    from formulas.tokens.operand import Number
+    from formulas.tokens.operator import OperatorToken
+    from formulas.tokens.function import Function
+    out = []
+    for label, make, n, want in (('binary-operator', lambda: OperatorToken('-'), 2, '(1 - 2)'),
+                                 ('percent', lambda: OperatorToken('%'), 1, '2%'),
+                                 ('function', lambda: Function('max('), 3, 'MAX(0, 1, 2)')):
+        calls = []
+        tok = make()
+        if label == 'function':
+            tok.attr['n_args'] = 3
+        base = type(tok)
+        cls = type('Spy', (base,), {'set_expr': lambda self, *ts, _c=calls, _b=base: (_c.append(ts), _b.set_expr(self, *ts))[1]})
+        tok.__class__ = cls
+        b = AstBuilder()
+        ops = [Number(str(i)) for i in range(3)][3 - n:]
+        try:
+            for o in ops:
+                b.append(o)
+            b.append(tok)
+            ok = len(calls) == 1 and list(calls[0]) == ops and tok.get_expr == want
+            detail = 'set_expr called with %r (operands %r), expr %r, expected %r' % (calls, ops, tok.attr.get('expr'), want)
+        except Exception as ex:
+            ok, detail = False, 'AstBuilder.append raised %s: %s' % (type(ex).__name__, ex)
+        out.append(dict(name='T:builder/set_expr-receives-the-popped-operands-in-order/%s' % label, kind='S', ok=ok, detail=detail, witness=None))
+    return out
+
+
+TABLES.append(_Table('T:builder-hands-operands-to-set_expr', 'C01', _builder_table))
+PROPERTIES['C01']['explanation'] = (
+    'Proved: the exported text of every node kind is the fully parenthesised rendering of its operands\' texts (set_expr of all 18 '
+    'operators, of function calls with 0..3 arguments, of text and numeric literals, on the real bodies for arbitrary operand texts); '
+    'with the ground fact that AstBuilder.append hands set_expr the popped operands in order, the exported text of a tree is its rendering '
+    'by structural induction.  ' + PROPERTIES['C01']['explanation'])
